@@ -16,6 +16,9 @@ class LoopIdx:
     def __init__(self, owner):
         self.owner = owner
 
+    def __repr__(self):
+        return "<all rows>"
+
 
 class IndexV:
     def __init__(self, n):
@@ -278,8 +281,26 @@ class ElemRows:
         raise ev.err(f"attribute {name} of an array of records", node, mod)
 
 
+class ColsV:
+    """numpy.array(sequence of fixed-length records): [:, i] is the i-th field as a vector"""
+
+    def __init__(self, fields):
+        self.fields = list(fields)
+
+    def sym_subscript(self, ev, idx, n, mod):
+        items = idx.items if isinstance(idx, Tup) else [idx]
+        if len(items) == 2 and isinstance(items[0], SliceV) and items[0].lo is None and items[0].hi is None and is_sym(items[1]) and items[1].is_Integer:
+            k = int(items[1])
+            if not -len(self.fields) <= k < len(self.fields):
+                raise ev.err("record field index out of range", n, mod)
+            return self.fields[k]
+        raise ev.err("unsupported index into an array of records", n, mod)
+
+
 def lib_np_array(ev, a, k, n, mod):
     v = a[0]
+    if isinstance(v, SeqV) and isinstance(v.elem, Tup):
+        return ColsV(v.elem.items)
     if isinstance(v, Tup) and len(v.items) == 1 and isinstance(v.items[0], Tup) and getattr(v, "elementwise", False):
         return ElemRows(v.items[0])
     if isinstance(v, Tup) and len(v.items) == 1 and getattr(v, "elementwise", False):
